@@ -17,7 +17,9 @@ var (
 	vfFailPool    = []string{"tf0:80", "tf1:80"}
 	vfDeadPool    = []string{"dead0:80", "dead1:80"}
 	vfBadTargets  = []string{"x", "bad target:80", "http://ta0:80", "ta0:", ":80", "-ta0:80", "ta0:8o"}
-	vfStopMsgs    = []string{"", "down for maintenance", "<b>back & soon</b>", "{{ .Message }}", "a\"b'c"}
+	vfStopMsgs    = []string{"", "down for maintenance", "<b>back & soon</b>", "{{ .Message }}", "a\"b'c",
+		// what a terminal may paste: escape sequences, control characters, runes outside the basic plane (all valid UTF-8)
+		"\x1b[31mred\x1b[0m", "bell\a tab\t vt\v del\x7f", "line one\nline two", "tag \U000e0001 emoji \U0001f6a7 caf\u00e9", "back\\slash \u2028 sep"}
 )
 
 func vfAllTargets() []string {
